@@ -248,6 +248,17 @@ def make_case(rng, double=False, nx=None, nt=None, span=None, n_baths=None, n_st
     return c
 
 
+def splice_at_last_reference_case(rng, double, noise=None, n_match=1):
+    """always-present layout: a splice exactly at the LAST reference location; fibre behind it reached through a matching pair"""
+    a0 = rng.randint(2, 4)
+    nx = a0 + rng.randint(24, 30)
+    blocks = [(a0, a0 + 5, 0), (a0 + 9, a0 + 13, 1)]
+    match = [((a0 + 1, a0 + 2), (a0 + 17, a0 + 18))] if n_match else []
+    layout = dict(ref_blocks=blocks, match_blocks=match, trans_idx=[(a0 + 13, True)])
+    return make_case(rng, double=double, nx=nx, nt=rng.randint(1, 4), span=rng.choice([50.0, 100.0, 500.0]), noise=noise, layout=layout,
+                     irregular=False)
+
+
 def dump_case(c):
     """everything needed to rebuild the case bit for bit (floats are written with repr precision by json)"""
     names = ["st", "ast"] + (["rst", "rast"] if c.double else [])
